@@ -272,3 +272,31 @@ def opEffRun (sage : Bool) (j : Json) : Except String Json := do
   pure (Json.mkObj [("steps", Json.arr outs.toArray)])
 
 end Ixai.Driver
+
+namespace Ixai.Driver
+open Lean Ixai
+
+/-- model inputs produced by the library imputers: strategy joint (choices: one row per inner sample), product
+    (choices: per inner sample one row per feature of S, aligned with S), default (values) -/
+def opImputeInputs (j : Json) : Except String Json := do
+  let strategy ← getStr j "strategy"
+  let d ← getNat j "d"
+  let x := listInst (← getRats j "x")
+  let S ← getNats j "S"
+  let n ← getNat j "n"
+  let rowsL ← (← getArr j "rows").mapM asRatList
+  let rows : Nat → Inst Rat := fun r => listInst (rowsL.getD r [])
+  let inputs ← match strategy with
+    | "joint" => do
+      let ch ← getNats j "choices"
+      pure (jointInputs rows S x n (fun jj => ch.getD jj 0))
+    | "product" => do
+      let ch ← (← getArr j "choices").mapM asNatList
+      pure (productInputs rows S x n (fun jj f => (ch.getD jj []).getD (S.idxOf f) 0))
+    | "default" => do
+      let vals := listInst (← getRats j "values")
+      pure (List.replicate n (defaultInput vals S x))
+    | s => .error s!"unknown strategy {s}"
+  pure (Json.mkObj [("inputs", Json.arr (inputs.map (fun z => jRats (instKey d z))).toArray)])
+
+end Ixai.Driver
